@@ -1,0 +1,13 @@
+// +build verif
+
+package balloon
+
+// Contracts for the verifier in /verif (comment-only).
+
+/*@
+func MembershipProof.DigestVerify
+  props C02 C12
+  requires snapshot != nil
+  ensures C02/accept-implies-exists-and-ordered: result ==> p.Exists && p.ActualVersion <= p.QueryVersion
+  ensures C02/accept-implies-parts: result ==> p.HyperProof != nil && p.HistoryProof != nil
+@*/
